@@ -71,4 +71,12 @@ pub fn run_e1<F: Fn(&State) -> Eval + Sync>(run: &mut Run, dims: &[usize], perio
         run.family(fam.describe(), states.len() as u64);
         run.explore(&states, &f, |s| s.to_json());
     }
+    for (desc, states) in medium_families(run.thorough(), dims, periodic) {
+        let states: Vec<State> = states.into_iter().filter(|s| s.n() <= max_n).collect();
+        if states.is_empty() {
+            continue;
+        }
+        run.family(desc, states.len() as u64);
+        run.explore(&states, &f, |s| s.to_json());
+    }
 }
